@@ -909,7 +909,12 @@ def check_liveness(scn, res):
                 pubs = [w for w in res.wire if w[1] == 'pub' and w[3][0] == 'pub' and w[3][1] == f['name'] and (w[3][2] or 0) >= 0
                         and w[3][3] == '//' and k['t'] < w[0] < t_rec]
 
-                if len(pubs) > 1:     # one publish may answer the request that was outstanding when the consumer died (a hard kill is silent)
+                # one publish may answer the request that was outstanding when the consumer died (a hard kill is silent), and one more each
+                # request of the dead consumer that was still on its way (the publisher cannot tell it from a live consumer's)
+                posthumous = sum(1 for w in res.wire if w[1] == 'dlv' and w[3][0] == 'req' and w[3][1] == k['f'] and (w[3][2] or 0) >= -1
+                                 and w[2].endswith(f'>>ipc://{f["name"]}.req') and k['t'] < w[0] < t_rec)
+
+                if len(pubs) > 1 + posthumous:
                     bad('published-without-required-output', f'{f["name"]} published ids {[w[3][2] for w in pubs][:6]} while its required output '
                         f'{k["f"]} was down ({k["t"]}..{t_rec} ms)')
 
